@@ -3,6 +3,8 @@
 #include <map>
 #include <memory>
 #include <vector>
+#include <signal.h>
+#include <unistd.h>
 #include "common.h"
 #define private public
 #include <dispenso/concurrent_vector.h>
@@ -11,6 +13,13 @@
 using vh::Tracked;
 using dispenso::ConcurrentVectorReallocStrategy;
 static long long cases = 0;
+static char gLast[700] = "none";
+static void onAlarm(int) {
+  char buf[900];
+  int k = std::snprintf(buf, sizeof buf, "PFAIL ConcurrentVector operation did not return (hang) | %s\nSTAT cases %lld\n", gLast, cases);
+  if (write(1, buf, (size_t)k)) {}
+  _exit(0);
+}
 
 struct TraitsA {
   static constexpr bool kPreferBuffersInline = false;
@@ -83,11 +92,14 @@ static void sequence(vh::SplitMix& rng, int maxOps, long long it, const char* tr
     int a = pick(), b = pick();
     int x = 1 + (int)rng.below(90);
     int n = (int)rng.below(11);
+    if (sizeof(Tracked) < 256 && rng.below(4) == 0) n = (int)rng.below(90);   // cross the 32-element first buckets
     std::vector<Tracked> xs; std::string xss;
     int xn = (int)rng.below(6);
     for (int i = 0; i < xn; ++i) { int v = 1 + (int)rng.below(90); xs.emplace_back(v); xss += " " + std::to_string(v); }
     char req[200];
     int dstId = -1; long pos = -1;
+    std::snprintf(gLast, sizeof gLast, "traits=%s ops=%s", traitName, hist.substr(hist.size() > 500 ? hist.size() - 500 : 0).c_str());
+    alarm(20);
     auto mk = [&](CV* p, RV* r) { Slot& s = objs[next]; s.p.reset(p); s.ref.reset(r); dstId = next++; };
     if (kind == 0) { std::snprintf(req, sizeof req, "mk"); mk(new CV(), new RV()); }
     else if (kind == 1) { std::snprintf(req, sizeof req, "mkSize %d", n); mk(new CV((size_t)n), new RV((size_t)n)); }
@@ -160,6 +172,7 @@ int main(int argc, char** argv) {
   long long S = vh::argInt(argc, argv, 2, 300);
   int maxOps = (int)vh::argInt(argc, argv, 3, 16);
   vh::SplitMix rng(seed);
+  signal(SIGALRM, onAlarm);
   // index math: bucketAndSubIndex for several first-bucket sizes
   {
     dispenso::ConcurrentVector<BigTracked> v2;
